@@ -93,6 +93,8 @@ prop('C08', level='proof',
      explanation='Contracts in contracts/gen_tbl.c on the real GenState member functions (gen unit = all of gen.cpp through the front end). Universal conclusions use unconstrained ghost indices (other line_info entry g_l, other potential_breaks entry g_o, list position g_s).',
      not_decided='that no other code touches the tables (supported by a token scan only); scanner-assigned positions', trusted=GEN_TRUST)
 
+SCAN_TRUST = ['scan unit: the flex scanner is outside - yylex is a trusted contract (may write any token and return any value), yylex_init/yy_scan_string/yyset_lineno/yyset_extra/yy_delete_buffer/yylex_destroy are stubs; ScannerInfo objects are opaque handles (N9); N12: the index found by contains() is the witness of the following operator[] on the file map (the model then asserts that operator[] finds the key), vectors of Theo::scan reserve their storage before the driver loop; N18 (return {a, b} -> aggregate of the declared return type)']
+
 prop('C07', level='proof',
      claim='Mechanisms only: a site is emitted exactly when generation moves to another line/file, never for __standards__ (advanceLine); labels resolve to the site just emitted (getMarkPos); END keywords are kept as NAME nodes made from the END token itself (matchmk contract: node carries the position of the token under the cursor); getCurrentBreak reports the table entry of the instruction just passed.',
      note='The sequence of stops of a whole stepping run and the source-level values at each stop are NOT decided (needs the simulation argument of C01). advanceLine is bounded in the number of table entries (see C08).',
@@ -100,16 +102,29 @@ prop('C07', level='proof',
      not_decided='whole-run stepping sequence; getActivationVariables; popSymbols stack maps', trusted=GEN_TRUST + PARSE_TRUST)
 
 prop('C02', level='proof',
-     claim='Parser: every descent function (S, P, PORTS, OPORTS, ARGS, MARGS, MOREP, VALUE, VARGS, MVARGS, expected_end_or_semicolon) and ParseState::lookahead/match/matchmk and AST::mk are memory safe for every token array ending in EOF, never move the cursor past EOF or backwards, only grow the error list, return either no node or a freshly recorded node exactly as documented - with callees replaced by contracts, so every dereference of a callee result is checked against what the callee may return. Literal conversion (strToInt) reports a range error exactly for values >= 2^31-1.',
+     claim='Parser: every descent function (S, P, PORTS, OPORTS, ARGS, MARGS, MOREP, VALUE, VARGS, MVARGS, expected_end_or_semicolon) and ParseState::lookahead/match/matchmk and AST::mk are memory safe for every token array ending in EOF, never move the cursor past EOF or backwards, only grow the error list, return either no node or a freshly recorded node exactly as documented - with callees replaced by contracts, so every dereference of a callee result is checked against what the callee may return. Literal conversion (strToInt) reports a range error exactly for values >= 2^31-1. Scanner driver (Theo::scan, bounded stand-in): memory safe, ends the stream with one EOF token located at the last scanned token (or main:1 / the placeholder when nothing was scanned). Macro helpers: cursor clamping at the end of input; the insertion index validated at extraction time equals the one used at application time.',
      note='Not decided: termination of the recursion and work bounds, leak freedom beyond "every node is recorded in all_allocated_nodes", error locations, the scanner, macro extraction/application, Theo::parse/gen drivers, dispatch* null-safety (the historical PORTS defect was repaired by fix ffe592a). Three genuine defects were repaired (known_findings.txt).',
      explanation='Contracts in contracts/parse.c; pre-state built by the harness; match\'s recovery loop and expected_end_or_semicolon\'s loop are closed by loop contracts.',
-     not_decided='scan, macro engine, gen_ast/gen drivers, termination', trusted=PARSE_TRUST + GEN_TRUST)
+     not_decided='lexer, macro engine, gen_ast/gen drivers, termination', trusted=PARSE_TRUST + GEN_TRUST + SCAN_TRUST)
 
 prop('C04', level='proof',
      claim='Parser half: match records an error exactly when the token kind differs and consumes exactly one matching token; each nonterminal function, selected by the lookahead it saw, records no error only if the tokens it consumed spell its production (VALUE, VARGS, MVARGS, PORTS, OPORTS, ARGS, MARGS, MOREP in full; P, S, expected_end_or_semicolon: no node without an error, stop tokens). Static rules: literal range (strToInt).',
      note='With the textbook LL(1) theorem (not machine-checked) this yields "no parser error <=> sentence" for the productions under full contract. Production conformance of P and S (the statement forms) is only partially under contract; unknown program / arity / unknown mark rules are not under contract yet; macros and the scanner are excluded.',
      explanation='Same groups as C02 plus gen_strToInt.',
      not_decided='P/S full conformance, static rules in dispatchValue/popSymbols, trailing-input loop of Theo::parse', trusted=PARSE_TRUST + GEN_TRUST)
+
+
+prop('C15', level='proof',
+     claim='Mechanisms: the recursion check exists_scanner answers true for EVERY stack position that reads the requested file (unbounded, loop contract) and exactly for stacks of depth <= 3; under that contract the driver loop of Theo::scan keeps the invariant "no two active scanners read the same file" (so a file that is being included is never entered again, and the stack depth is bounded by the number of files), pushes a scanner only for a key found in the file map, never touches the file map, reports an absent main file at the placeholder location with the main name as request, gives every FILE_NOT_FOUND error a request that is not a key of the map and no other error a request.',
+     note='exists_scanner is proved without bound. Theo::scan is a BOUNDED stand-in in the capacity of its three vectors (4 quick / 8 thorough elements; the number of loop iterations is unbounded through the loop contract): symbolic-size arrays of 24/32-byte records exhaust the SAT back end (24 GB). Termination itself, "every absent include is reported" (completeness direction), "repeated sequential inclusion is allowed" and the file_requests collection in Theo::parse are not decided; the flex scanner is trusted.',
+     explanation='Groups scan_layout, scan_exists_scanner (contracts/scan.c, loop contract contracts/scan_exists.loops.json.in), scanB_scan (loop contract contracts/scan.loops.json.in; callees exists_scanner and yylex replaced by contracts).',
+     not_decided='termination; completeness of reports; Theo::parse file_requests collection; lexer', trusted=SCAN_TRUST)
+
+prop('C18', level='proof',
+     claim='Sequential half only: every function under contract (the VM step/debugger functions, the generator state functions and dispatch functions, the parser descent functions, the macro cursor helpers, the scanner driver) writes nothing outside its assigns clause, and every assigns clause names only state reached through the function\'s own arguments (the VM / GenState / ParseState / ExtractionState object, result objects) and verification ghosts - never static storage of the library. Such a function cannot carry information from one call, compilation or VM instance to another except through the objects it is given, so equal inputs give equal outputs and distinct VM instances do not influence one another through these functions.',
+     note='NOT decided: thread schedules and data races (outside CBMC contracts - no thread support in the contract machinery), functions that are not under contract (apply_macros and the LR machinery, Theo::parse/gen/compile drivers, the flex scanner and its reentrancy, VM constructor copying the program), nondeterminism of iteration order inside std::map/std::set (modelled as arbitrary). The frame obligations of bounded stand-in groups are listed separately and not counted.',
+     explanation='All obligation groups except the layout groups; only obligations of class "assigns" (DFCC write-set inclusion checks generated for every assignment, call and loop of the function under contract) are attributed to C18.',
+     not_decided='thread schedules, races, functions outside contracts', trusted=GEN_TRUST + PARSE_TRUST + SCAN_TRUST)
 
 HOOK_COMMITS = ['019397c']
 
@@ -120,6 +135,4 @@ NOT_APPLICABLE = {
  'C12': 'LR(1) conflict <=> not prefix-deterministic is a language-theoretic theorem over item-set fixpoints; no function contract states it without an inductive derivation spec, and the code is template/std::set<struct> based, outside the front end',
  'C13': 'recognises-exactly-the-grammar needs induction over derivations, which CBMC contracts cannot perform; code outside the C++ front end',
  'C14': 'the oracle is the regular-expression semantics of lexer.l against flex generated DFA tables; a contract can at most bound table indices, equivalence needs an independent regex construction (a model)',
- 'C15': 'scan.cpp interleaves its include logic with flex entry points (yylex, yy_scan_string, reentrant scanner state) whose behaviour would have to be assumed wholesale; not built in this revision',
- 'C18': 'thread schedules are outside CBMC contracts; the sequential half (no function under contract writes static storage) is implied by the assigns clauses but not claimed as a separate check in this revision',
 }
